@@ -1,6 +1,7 @@
 import EmsModel.Core.Named
 import EmsModel.Lemmas.NDArray
 import EmsModel.Lemmas.Ravel
+import EmsModel.Lemmas.Unused
 /-!
 # C03 — flattening and winding variables are exact inverses
 
@@ -354,4 +355,108 @@ theorem wind_get (x : NArr α) (pre post gd : List Dim) (lin : String)
     simp only at hx
     simp [hx]
 
+end Ems.C03
+
+namespace Ems.C03
+open Ems Ems.NArr
+variable {α : Type}
+
+theorem filter_all_false {β : Type} (p : β → Bool) : ∀ (l : List β), (∀ x ∈ l, p x = false) → l.filter p = []
+  | [], _ => rfl
+  | x :: xs, h => by
+    simp only [List.filter_cons, h x (by simp)]
+    exact filter_all_false p xs (fun y hy => h y (by simp [hy]))
+
+theorem filter_all_true {β : Type} (p : β → Bool) : ∀ (l : List β), (∀ x ∈ l, p x = true) → l.filter p = l
+  | [], _ => rfl
+  | x :: xs, h => by
+    simp only [List.filter_cons, h x (by simp), if_true]
+    rw [filter_all_true p xs (fun y hy => h y (by simp [hy]))]
+
+/-- **ravel ∘ wind**: winding arbitrary linear data (linear dimension at any position `pre … lin
+… post`, chosen by default, axis or name — the name is what reaches this level) and flattening
+it again gives back every value: the result has dimensions `pre ++ post ++ [lin]` and reads, at
+every assignment of indexes, exactly as the input did (the identity up to moving `lin` last;
+the identity outright when `lin` was already last). -/
+theorem ravel_wind [Inhabited α] (x : NArr α) (pre post gd : List Dim) (lin : String)
+    (hx : x.dims = pre ++ ((lin, size (gd.map (·.2))) :: post)) (hwf : x.WF)
+    (hgn : (gd.map (·.1)).Nodup)
+    (hfresh : ∀ d ∈ gd, d.1 ∉ (pre ++ post).map (·.1))
+    (e : Env) (v : String → Nat) (n : Nat) (ig : List Nat)
+    (hv : ∀ d ∈ pre ++ post, e.get d.1 = some (v d.1) ∧ v d.1 < d.2)
+    (hn : e.get lin = some n) (hig : unravel (gd.map (·.2)) n = some ig) :
+    ∃ y r, x.windDim gd lin = some y ∧ y.ravelDims (gd.map (·.1)) (some lin) = some r ∧
+      r.dims = (pre ++ post) ++ [(lin, size (gd.map (·.2)))] ∧ r.get? e = x.get? e := by
+  obtain ⟨y, hy, hydims, hydata, hyget⟩ := wind_get x pre post gd lin hx hwf hgn hfresh
+  -- name bookkeeping from the input's well-formedness
+  have hnod : (x.dims.map (·.1)).Nodup := hwf.2
+  rw [hx] at hnod
+  simp only [List.map_append, List.map_cons, List.nodup_append, List.nodup_cons] at hnod
+  obtain ⟨hpre_nd, ⟨hlin_post, hpost_nd⟩, hdisj⟩ := hnod
+  have hlin_pre : lin ∉ pre.map (·.1) := fun h => hdisj lin h lin (by simp) rfl
+  have hpp : ∀ a ∈ pre.map (·.1), ∀ b ∈ post.map (·.1), a ≠ b := fun a ha b hb =>
+    hdisj a ha b (by simp [hb])
+  -- the wound array is well formed
+  have hywf : y.WF := by
+    refine ⟨?_, ?_⟩
+    · rw [hydata, hwf.1]
+      simp only [shape, hx, hydims, List.map_append, List.map_cons, size_append, size]
+    · simp only [names, hydims, List.map_append, List.nodup_append]
+      refine ⟨hpre_nd, ⟨hgn, hpost_nd, ?_⟩, ?_⟩
+      · intro a ha b hb hab
+        obtain ⟨d, hd, rfl⟩ := List.mem_map.mp ha
+        exact hfresh d hd (by rw [hab]; simp [hb])
+      · intro a ha b hb hab
+        rcases List.mem_append.mp hb with hb | hb
+        · obtain ⟨d, hd, rfl⟩ := List.mem_map.mp hb
+          exact hfresh d hd (by rw [← hab]; simp [ha])
+        · exact hpp a ha b hb hab
+  -- the dimensions of `y` other than the grid's are `pre ++ post`
+  have hothers : y.dims.filter (fun d => !(gd.map (·.1)).contains d.1) = pre ++ post := by
+    rw [hydims, List.filter_append, List.filter_append]
+    have h1 : pre.filter (fun d => !(gd.map (·.1)).contains d.1) = pre :=
+      filter_all_true _ pre (by
+        intro d hd
+        cases hc : (gd.map (·.1)).contains d.1 with
+        | false => rfl
+        | true =>
+          obtain ⟨g, hg, hge⟩ := List.mem_map.mp (List.contains_iff_mem.mp hc)
+          exact absurd (by rw [hge]; simp [List.mem_map_of_mem hd] : g.1 ∈ (pre ++ post).map (·.1)) (hfresh g hg))
+    have h2 : gd.filter (fun d => !(gd.map (·.1)).contains d.1) = [] :=
+      filter_all_false _ gd (by
+        intro d hd
+        have : (gd.map (·.1)).contains d.1 = true := List.contains_iff_mem.mpr (List.mem_map_of_mem hd)
+        show (!(gd.map (·.1)).contains d.1) = false
+        rw [this]; rfl)
+    have h3 : post.filter (fun d => !(gd.map (·.1)).contains d.1) = post :=
+      filter_all_true _ post (by
+        intro d hd
+        cases hc : (gd.map (·.1)).contains d.1 with
+        | false => rfl
+        | true =>
+          obtain ⟨g, hg, hge⟩ := List.mem_map.mp (List.contains_iff_mem.mp hc)
+          exact absurd (by rw [hge]; simp [List.mem_map_of_mem hd] : g.1 ∈ (pre ++ post).map (·.1)) (hfresh g hg))
+    rw [h1, h2, h3]; simp
+  have hsub : ∀ d ∈ gd, d ∈ y.dims := by intro d hd; rw [hydims]; simp [hd]
+  have hlin_fresh : lin ∉ (y.dims.filter (fun d => !(gd.map (·.1)).contains d.1)).map (·.1) := by
+    rw [hothers]
+    simp only [List.map_append, List.mem_append, not_or]
+    exact ⟨hlin_pre, hlin_post⟩
+  obtain ⟨r, hr, hrget⟩ := ravel_get y gd lin hywf hgn hsub hlin_fresh e v n ig
+    (by rw [hothers]; exact hv) hn hig
+  obtain ⟨r', hr', hrdims, _⟩ := wind_ravel y gd lin hywf hgn hsub hlin_fresh
+  rw [hr] at hr'; cases hr'
+  refine ⟨y, r, hy, hr, by rw [hrdims, hothers], ?_⟩
+  rw [hrget]
+  exact (hyget e v n ig hv hn hig hywf).symm
+
+end Ems.C03
+
+namespace Ems.C03
+/-- the automatically chosen linear dimension name is never a dimension already in use, and is
+the plain prefix whenever that is free (`find_unused_dimension`) -/
+theorem findUnused_fresh (existing : List String) (pfx : String) :
+    Ems.NArr.findUnused existing pfx ∉ existing ∧
+    (pfx ∉ existing → Ems.NArr.findUnused existing pfx = pfx) :=
+  ⟨Ems.NArr.findUnused_fresh existing pfx, Ems.NArr.findUnused_prefix_if_free existing pfx⟩
 end Ems.C03
